@@ -59,6 +59,7 @@ class Gen(object):
         self.sigs = sigs              # {cls: {name: sig}}
         self.info = info
         self.tok = 0
+        self.kept_apps = {}
         self.kept = {}
         self.targets = []
 
@@ -111,6 +112,9 @@ class Gen(object):
             eth.append([list(xy), st])
         dead = [[x, y] for x in range(1, w - 1) for y in range(1, h - 1)
                 if (x, y) not in eths and r.random() < 0.02]
+        if r.random() < 0.45:
+            # the corner chip and some chips below it dead: the last column is shorter than the machine is high
+            dead += [[w - 1, h - 1 - i] for i in range(r.randint(1, 6))]
         desc = dict(w=w, h=h, root=list(root), eth=eth, dead=dead)
         # the connections that are known afterwards: discovered AND kept (the probe over them succeeded)
         conns = [[xy, i + 1] for i, (xy, st) in enumerate(eth) if st == "ok"]
@@ -340,16 +344,39 @@ class Gen(object):
                 inforce = inforce | {nm}
             elif u < 0.92:
                 ops.append(["raise"])
+            elif u < 0.95:
+                how = r.choice(["clear", "pop", "update", "update"])
+                nm = r.choice(CTX_NAMES[cls][:6])
+                ops.append(["getargs", how, [[nm, self.value(cls, "__call__", nm, ctl)]]])
+                self.shapes.append(("__context__", ["returned-arguments-edited"]))
             else:
                 ops.append(["try", self.block(cls, methods, ctl, inforce, depth + 1, active, noupdate)])
         return ops
 
     def app(self, cls, methods, ctl, inforce, depth, active=()):
         r = self.rng
-        pos, kw, shape = self.call(cls, "application", ctl, inforce)
-        self.shapes.append(("application", shape))
+        avar = None
+        if r.random() < 0.4:
+            # app = c.application(n) kept in a variable and entered more than once (in turn, or nested in itself)
+            if self.kept_apps and r.random() < 0.6:
+                avar = r.choice(sorted(self.kept_apps))
+                self.shapes.append(("__context__", ["application-context-re-entered"]))
+            else:
+                avar = len(self.kept_apps)
+                self.kept_apps[avar] = r.randrange(1, 255)
+                self.shapes.append(("__context__", ["application-context-kept"]))
+            pos, kw = [self.kept_apps[avar]], []
+        else:
+            pos, kw, shape = self.call(cls, "application", ctl, inforce)
+            self.shapes.append(("application", shape))
         intr = r.choice(INTERRUPTS) if r.random() < 0.3 else None
-        op = ["app", pos, kw, self.block(cls, methods, ctl, inforce | {"app_id"}, depth + 1, active), intr]
+        op = ["app", pos, kw, self.block(cls, methods, ctl, inforce | {"app_id"}, depth + 1, active,
+                                         noupdate=avar is not None), intr, avar]
+        if avar is not None and methods and r.random() < 0.5 and depth < 4:
+            # and straight away once more
+            op2 = ["app", pos, kw, self.block(cls, methods, ctl, inforce | {"app_id"}, depth + 1, active, noupdate=True),
+                   None, avar]
+            return ["try", [op, op2]]
         if intr:
             self.shapes.append(("__context__", ["stop-command-interrupted"]))
             return self.caught(cls, op, methods, ctl, inforce)
@@ -377,6 +404,7 @@ class Gen(object):
         r = self.rng
         self.shapes = []
         self.kept = {}
+        self.kept_apps = {}
         self.targets = []
         desc = desc2 = None
         if cls == "MC" and r.random() < 0.3:
@@ -503,7 +531,8 @@ def cop(op):
 
 
 def cops(ops):
-    return vlist(cop(o) for o in ops)
+    # get_context_arguments() hands out a fresh dictionary (merge_stack builds one): editing it is no step of the model
+    return vlist(cop(o) for o in ops if o[0] != "getargs")
 
 
 def copt(x, f=zlit):
